@@ -372,7 +372,7 @@ func runListSawtooth[T comparable](c *core.Ctx, d *Dom[T]) {
 func runC03(c *core.Ctx) {
 	const sweepCases = 13 * 4 * 4
 	i := c.Index
-	c.SetGaps(i >= sweepCases && i%2 == 1)
+	c.SetGaps(i >= sweepCases && (i/4)%2 == 1)
 	switch {
 	case i < sweepCases:
 		runListSweep(c, IntDom(5), i)
